@@ -38,6 +38,9 @@ type Node16 struct {
 	Key  string   `json:"key"`
 	Kind string   `json:"kind"` // A | B | N | T | G (graph) | W (workflow)
 	Sub  []Node16 `json:"sub,omitempty"`
+	// Keyed (nodes of plain graphs only): the node is added with WithOutputKey and followed by a lambda that
+	// unwraps the map again (call paradigm Stream exercises the stream form of the keyed wrapper)
+	Keyed bool `json:"keyed,omitempty"`
 }
 
 type Opt16 struct {
@@ -78,6 +81,7 @@ type CaseC16 struct {
 	Nodes      []Node16 `json:"nodes"`
 	Calls      []Call16 `json:"calls"`
 	Concurrent bool     `json:"concurrent"`
+	Stream     bool     `json:"stream,omitempty"` // call through Stream instead of Invoke
 }
 
 type rec16 struct {
@@ -123,7 +127,10 @@ func addNode16(adder interface {
 	AddGraphNode(key string, node compose.AnyGraph, opts ...compose.GraphAddNodeOpt) error
 }, n Node16, path string) error {
 	p := path + n.Key
-	name := compose.WithNodeName(p)
+	nopts := []compose.GraphAddNodeOpt{compose.WithNodeName(p)}
+	if n.Keyed {
+		nopts = append(nopts, compose.WithOutputKey("k"))
+	}
 	switch n.Kind {
 	case "A":
 		return adder.AddLambdaNode(n.Key, compose.InvokableLambdaWithOption(func(ctx context.Context, in docs, opts ...OptA) (docs, error) {
@@ -133,7 +140,7 @@ func addNode16(adder interface {
 			}
 			recOf(ctx).add(p, vs...)
 			return in, nil
-		}), name)
+		}), nopts...)
 	case "B":
 		return adder.AddLambdaNode(n.Key, compose.InvokableLambdaWithOption(func(ctx context.Context, in docs, opts ...OptB) (docs, error) {
 			vs := make([]string, 0, len(opts))
@@ -142,7 +149,7 @@ func addNode16(adder interface {
 			}
 			recOf(ctx).add(p, vs...)
 			return in, nil
-		}), name)
+		}), nopts...)
 	case "I":
 		// a lambda whose option type is an interface: no option value has that type, so nothing is routed to it
 		return adder.AddLambdaNode(n.Key, compose.InvokableLambdaWithOption(func(ctx context.Context, in docs, opts ...any) (docs, error) {
@@ -152,20 +159,20 @@ func addNode16(adder interface {
 			}
 			recOf(ctx).add(p, vs...)
 			return in, nil
-		}), name)
+		}), nopts...)
 	case "N":
 		return adder.AddLambdaNode(n.Key, compose.InvokableLambda(func(ctx context.Context, in docs) (docs, error) {
 			recOf(ctx).add(p)
 			return in, nil
-		}), name)
+		}), nopts...)
 	case "T":
-		return adder.AddDocumentTransformerNode(n.Key, &transformer16{path: p}, name)
+		return adder.AddDocumentTransformerNode(n.Key, &transformer16{path: p}, nopts...)
 	case "G", "W":
 		sub, err := build16(n.Sub, p+"/", n.Kind)
 		if err != nil {
 			return err
 		}
-		return adder.AddGraphNode(n.Key, sub, name)
+		return adder.AddGraphNode(n.Key, sub, nopts...)
 	}
 	return fmt.Errorf("bad kind %s", n.Kind)
 }
@@ -214,6 +221,19 @@ func build16(nodes []Node16, path string, kind string) (compose.AnyGraph, error)
 			return nil, err
 		}
 		prev = n.Key
+		if n.Keyed {
+			u := n.Key + "_u"
+			if err := g.AddLambdaNode(u, compose.InvokableLambda(func(ctx context.Context, in map[string]any) (docs, error) {
+				d, _ := in["k"].(docs)
+				return d, nil
+			})); err != nil {
+				return nil, err
+			}
+			if err := g.AddEdge(prev, u); err != nil {
+				return nil, err
+			}
+			prev = u
+		}
 	}
 	if err := g.AddEdge(prev, compose.END); err != nil {
 		return nil, err
@@ -325,6 +345,13 @@ func (h *cb16) handler() callbacks.Handler {
 		h.rec.cb[h.id] = append(h.rec.cb[h.id], info.Name)
 		h.rec.mu.Unlock()
 		return ctx
+	}).OnStartWithStreamInputFn(func(ctx context.Context, info *callbacks.RunInfo, input *schema.StreamReader[callbacks.CallbackInput]) context.Context {
+		// units that natively take a stream (nested graphs in a Stream call) start with this timing
+		input.Close()
+		h.rec.mu.Lock()
+		h.rec.cb[h.id] = append(h.rec.cb[h.id], info.Name)
+		h.rec.mu.Unlock()
+		return ctx
 	}).Build()
 }
 
@@ -412,6 +439,21 @@ func checkC16(c CaseC16) (*vkit.Failure, vkit.Meta) {
 			rec := &rec16{got: map[string][]string{}, cb: map[string][]string{}}
 			ctx := context.WithValue(context.Background(), rec16Key{}, rec)
 			callID := fmt.Sprintf("call%d", i)
+			if c.Stream {
+				sr, err := r.Stream(ctx, docs{{ID: "d"}}, buildOpts(c.Calls[i], callID, rec)...)
+				if err == nil {
+					for {
+						if _, e := sr.Recv(); e != nil {
+							if e.Error() != "EOF" {
+								err = e
+							}
+							break
+						}
+					}
+					sr.Close()
+				}
+				return outcome{rec, err}
+			}
 			_, err := r.Invoke(ctx, docs{{ID: "d"}}, buildOpts(c.Calls[i], callID, rec)...)
 			return outcome{rec, err}
 		}
@@ -526,7 +568,7 @@ func checkC16(c CaseC16) (*vkit.Failure, vkit.Meta) {
 	return f, m
 }
 
-func genNodes16(t *rapid.T, depth int, prefix string) []Node16 {
+func genNodes16(t *rapid.T, depth int, prefix string, inWorkflow bool) []Node16 {
 	n := rapid.IntRange(1, 4).Draw(t, "n")
 	var out []Node16
 	for i := 0; i < n; i++ {
@@ -536,8 +578,11 @@ func genNodes16(t *rapid.T, depth int, prefix string) []Node16 {
 		}
 		k := kinds[rapid.IntRange(0, len(kinds)-1).Draw(t, "kind")]
 		nd := Node16{Key: fmt.Sprintf("%s%d", strings.ToLower(k), i), Kind: k}
+		if !inWorkflow && k != "W" && rapid.IntRange(0, 4).Draw(t, "keyed") == 0 {
+			nd.Keyed = true
+		}
 		if k == "G" || k == "W" {
-			nd.Sub = genNodes16(t, depth-1, prefix+nd.Key+"/")
+			nd.Sub = genNodes16(t, depth-1, prefix+nd.Key+"/", k == "W")
 		}
 		out = append(out, nd)
 	}
@@ -545,7 +590,8 @@ func genNodes16(t *rapid.T, depth int, prefix string) []Node16 {
 }
 
 func genC16(t *rapid.T) CaseC16 {
-	c := CaseC16{Nodes: genNodes16(t, 2, "")}
+	c := CaseC16{Nodes: genNodes16(t, 2, "", false)}
+	c.Stream = rapid.IntRange(0, 2).Draw(t, "stream") == 0
 	var all []flat16
 	flatten(c.Nodes, "", &all)
 	paths := make([]string, 0, len(all))
